@@ -54,9 +54,32 @@ def _java(heap='8g'):
     return ['java', '-XX:+UseParallelGC', '-Xmx' + heap, '-cp', JAR]
 
 
+SHARED = ('Z80.tla', 'Z80Bits.tla', 'Z80Asm.tla')
+_copies_ok = False
+
+
+def check_copies():
+    """TLC resolves EXTENDS relative to the module's directory, so the shared Z80 modules exist as copies in several
+    spec directories; they must be byte-identical (one specification, not several)."""
+    global _copies_ok
+    if _copies_ok:
+        return
+    for name in SHARED:
+        seen = {}
+        for d in sorted(os.listdir(SPEC)):
+            f = os.path.join(SPEC, d, name)
+            if os.path.isfile(f):
+                with open(f, 'rb') as fh:
+                    seen.setdefault(fh.read(), []).append(d)
+        if len(seen) > 1:
+            raise MachineryError('copies of %s differ between spec directories: %s' % (name, sorted(seen.values())))
+    _copies_ok = True
+
+
 def run(module_dir, module, cfg, *, env=None, workers=16, timeout=3600, extra=(), tag=None,
         coverage=False, heap='8g', dfs=False):
     """Run TLC on module_dir/module.tla with module_dir/cfg. Returns TLCResult."""
+    check_copies()
     tag = tag or module
     meta = os.path.join(WORK, 'tlc-meta', tag + '-' + str(os.getpid()))
     shutil.rmtree(meta, ignore_errors=True)
